@@ -150,7 +150,7 @@ func (t *treeGen) pluginTree(healthy bool, withBinaries bool) ([]plEntry, []plIn
 func genC28(g *Gen, tier string, w *bufio.Writer) {
 	scale := 1
 	if tier == "thorough" {
-		scale = 6
+		scale = 10
 	}
 	// ---- list
 	for i := 0; i < 160*scale; i++ {
